@@ -40,6 +40,10 @@ func (b BuildConfig) String() string {
 	return s
 }
 
+// repoOverlay replaces file contents while loading (used only by the mutant
+// self-test: single-edit variants of /repo analysed without touching the tree).
+var repoOverlay map[string][]byte
+
 // World is the loaded, type-checked program plus SSA.
 type World struct {
 	Repo   string
@@ -86,11 +90,12 @@ func pickGoroot() string {
 func LoadRepo(repo string, cfg BuildConfig) (*World, error) {
 	fset := token.NewFileSet()
 	pcfg := &packages.Config{
-		Mode:  packages.LoadAllSyntax,
-		Dir:   repo,
-		Fset:  fset,
-		Env:   loaderEnv(pickGoroot(), cfg),
-		Tests: false,
+		Mode:    packages.LoadAllSyntax,
+		Dir:     repo,
+		Fset:    fset,
+		Env:     loaderEnv(pickGoroot(), cfg),
+		Tests:   false,
+		Overlay: repoOverlay,
 	}
 	if cfg.Tags != "" {
 		pcfg.BuildFlags = []string{"-tags=" + cfg.Tags}
